@@ -13,7 +13,7 @@ B (bounded): run-time postconditions, written from the property statement, on
    (last)   out[last selected row of group g] == the real group reduction of g (GroupBy.sum/min/max/size, numba.group_sum/min/max/size)
    (exact)  int/bool input -> integer result dtype, temporal input -> the input's dtype; values compared exactly (int64 beyond 2^53 and near
             2^62, int32 sums beyond 2^31, datetime64/timedelta64[ns] beyond 2^53 ns with odd nanoseconds)
-   (shape)  one output row per input row, aligned with the input (same pandas index when the values carry one)
+   (shape)  one output row per input row (what index the result carries is C11's business)
    (frame)  values and mask are not written to
  Rows with a null key or rows the mask drops are NOT constrained here (what they hold is C05's business).
  + precondition monitors on _cumulative_reduce (the `requires` under which the kernel is proved).
@@ -26,13 +26,14 @@ from . import common as C
 PROP = "C08"; LEVEL = "other"; P_TIER = True
 VKINDS = ("float", "int", "bool", "datetime", "timedelta", "float32", "int32")
 MIN_INT = C.MIN_INT
-SCOPE = {"quick": "K (kernel entry points numba.cum*, codes over {-1,0,1}; both skip_na settings and cumsum/cummin/cummax/cumcount on every case; float/int values also as a 2-chunk Arrow array): "
-                  "every sequence of n<=3 rows x {float,int,bool,datetime,timedelta,float32,int32} x every value-null pattern x {no mask, every boolean mask}; n=4 the same for float/int/bool/int32 and with <=1 null (or all null) x 7 masks for datetime/timedelta/float32; "
-                  "float n=5 (first code in {-1,0}, <=2 nulls or all, 4 masks) and n=6 (<=1 null or all, 2 masks). "
-                  "P (public GroupBy.cum*, labels over {null,a,b}): every sequence of n<=4 rows (float values n<=6, first label in {null,a} for n>=5) x keys {float ndarray, str ndarray, float Arrow ChunkedArray in 2 / 3 chunks} "
-                  "x 7 value classes x null patterns {none, each single null, first two, all} with no mask + 3 designed masks (thinned for n>=5 and for non-float classes at n=4) x skip_na on/off; values as ndarray or pandas Series; "
-                  "last-value-vs-reduction clause on every 3rd P case and every K case; two 1,000,000-row cases (keys factorised in chunks); seeded random cases up to 24 rows",
-         "thorough": "as quick with K exhaustive to n=4 for every class and n=5 for float (pruned n<=7), P full table to n=4 for every class (n<=5 thinned, float n<=7), a third 1,000,000-row case with null keys, random cases up to 64 rows"}
+SCOPE = {"quick": "K (kernel entry points numba.cum*, codes over {-1,0,1}; both skip_na settings and cumsum/cummin/cummax/cumcount on every case, last-value-vs-numba.group_* on every 2nd; float values on every 6th case as a 2-chunk Arrow array): "
+                  "every sequence of n<=3 rows x {float,int,bool,datetime,timedelta,float32,int32} x every value-null pattern x {no mask, every boolean mask}; n=4: the same for float/int/bool/int32, and <=1 null (or all null) x {no mask, 6 designed masks} for datetime/timedelta/float32; "
+                  "float n=5 (first code in {-1,0}; <=1 null, all null, or 2 nulls touching the first/last row; masks none/alternate/first row dropped) and n=6 (<=1 null or all; masks none/alternate). "
+                  "P (public GroupBy.cum*, labels over {null,a,b}; both skip_na settings and the four methods on every case, last-value-vs-GroupBy.sum/min/max/size on every 3rd): every label sequence of n<=4 rows for float/int/datetime/timedelta values "
+                  "(n<=3 for bool/float32/int32, n<=6 for float with first label in {null,a} for n>=5) x keys {float ndarray, str ndarray, float Arrow ChunkedArray in 2 and (n>=4) 3 chunks} x null patterns {none, each single null, first two, all} without mask "
+                  "+ {no null, first null} x masks {alternate, first dropped, last dropped} on float-ndarray keys, 2-3 (null pattern, mask) combinations on the other key kinds and for n>=5; values as ndarray or (float, datetime) pandas Series; "
+                  "two 1,000,000-row cases (float and int64 values; keys factorised in chunks); seeded random cases up to 24 rows with 3 labels",
+         "thorough": "as quick with K exhaustive to n=4 for every class and n=5 for float (other classes n=5 pruned, float pruned to n=7), P full table to n=4 for every class (n=5 thinned, float thinned to n=7), a third 1,000,000-row case with null keys, random cases up to 64 rows"}
 RULE = "a case = (level K/P, codes or labels, key kind/layout, value class, value-null pattern, mask, chunking of the values); both skip_na settings and all four operations run on each case; distinct = distinct canonical JSON; non-trivial = two groups, or a null key, or a null value, or a mask"
 ASSUMPTIONS = ["A-real: float sums compared with relative tolerance 1e-9 (1e-6 for float32); every other class is compared exactly",
                "A-int64: the running sums of the generated values fit 64 bits (one value near 2^62 per case, the others near 2^53)",
@@ -101,17 +102,6 @@ def spec_cum(op, groups, vals, selected, skip_na):
         elif op == "sum": out[r] = (sum(nn) if nn else 0) if (skip_na or len(nn) == len(h)) else None
         elif skip_na or len(nn) == len(h): out[r] = (min(nn) if op == "min" else max(nn)) if nn else None
     return out
-
-
-def spec_reduce(op, groups, vals, selected):
-    out = {}
-    for r, g in enumerate(groups):
-        if g is not None and r in selected: out.setdefault(g, []).append(vals[r])
-    red = {}
-    for g, h in out.items():
-        nn = [x for x in h if x is not None]
-        red[g] = len(h) if op == "count" else ((sum(nn) if nn else 0) if op == "sum" else ((min(nn) if op == "min" else max(nn)) if nn else None))
-    return red
 
 
 # ----------------------------------------------------------------------------- cases
